@@ -1454,6 +1454,236 @@ Proof.
   destruct (ll_init _ _ _ _); try reflexivity. apply ll_loop_mono. exact H.
 Qed.
 
+(** *** How much fuel an accepted run needs
+
+    Potential of a configuration on an error-free run: every loop iteration raises
+    [2 * |actions so far| + |end-of-production markers on the stack| - |tokens not yet consumed|]
+    by exactly one. *)
+Definition nPE (st : list pitem) : nat :=
+  length (filter (fun i => match i with PE _ => true | _ => false end) st).
+
+Definition nz (t : N) : bool := negb (N.eqb t 0).
+
+Definition remaining (s : stream) : nat :=
+  length (filter nz (map fst (s_buf s) ++ map fst (s_rest s))).
+
+Section Fuel.
+Variable orc : oracle.
+Variable tb : ll_tables.
+Variable opts : options.
+Variable toks : list N.
+Hypothesis Hok : tables_ok_basic tb = true.
+Hypothesis Hrec : o_recovery opts = false \/ la_wf tb = true.
+Hypothesis Hnz : ~ In 0%N toks.
+
+Lemma read_tokens_nz n : forall rest e l,
+  filter nz (map fst (fst (read_tokens n rest e l)) ++ map fst (fst (snd (read_tokens n rest e l))))
+  = filter nz (map fst rest).
+Proof.
+  induction n as [|n IH]; intros rest e l; [reflexivity|].
+  cbn [read_tokens]. destruct rest as [|x rest].
+  - destruct e as [|e]; cbn [fst snd map app filter nz N.eqb negb]; rewrite IH; reflexivity.
+  - cbn [fst snd map app filter]. rewrite IH. reflexivity.
+Qed.
+
+Lemma remaining_ensure s : remaining (ensure tb s) = remaining s.
+Proof.
+  unfold ensure. destruct (length (s_buf s) <? stream_k tb); [|reflexivity].
+  unfold remaining. cbn [s_buf s_rest].
+  rewrite map_app, <- app_assoc, (filter_app nz (map fst (s_buf s))), read_tokens_nz, <- filter_app.
+  reflexivity.
+Qed.
+
+Lemma remaining_predict d s r s1 : predict tb d s = (r, s1) -> remaining s1 = remaining s.
+Proof. intros H. apply predict_stream in H as [->| ->]; [reflexivity|apply remaining_ensure]. Qed.
+
+Lemma nPE_items l st : nPE (push_items l st) = nPE st.
+Proof.
+  rewrite push_items_spec. unfold nPE. rewrite filter_app, app_length.
+  replace (filter _ (rev (map item_of l))) with (@nil pitem); [reflexivity|].
+  symmetry. induction l as [|[t|a] l IH]; cbn [map item_of rev]; [reflexivity| |];
+    rewrite filter_app, IH; reflexivity.
+Qed.
+
+Lemma push_production_shape c p c' : push_production tb opts c p = Continue c' ->
+  c_errs c' = c_errs c /\ c_acts c' = c_acts c /\ c_stream c' = c_stream c /\
+  nPE (c_stack c') = S (nPE (c_stack c)).
+Proof.
+  unfold push_production. intros H.
+  destruct (prod_at tb p) as [pr|]; [|discriminate].
+  destruct (negb _); [discriminate|].
+  assert (Hn : nPE (push_items (p_rev pr) (PE p :: c_stack c)) = S (nPE (c_stack c))).
+  { rewrite nPE_items. reflexivity. }
+  destruct (o_max_depth opts) as [m|]; [destruct (m <? _)%N; [discriminate|]|];
+    inversion H; subst c'; cbn [c_errs c_acts c_stream c_stack]; auto.
+Qed.
+
+(** Once an error entry exists the run cannot be accepted any more. *)
+Lemma errs_stuck_step c c' : c_errs c <> [] -> ll_step orc tb opts c = Continue c' -> c_errs c' <> [].
+Proof.
+  intros He H. unfold ll_step in H.
+  destruct (c_stack c) as [|[t|a|p] st']; [inversion H; subst; exact He| | |].
+  - destruct (s_buf (ensure tb (c_stream c))) as [|tok b]; [discriminate|].
+    destruct (fst tok =? t)%N.
+    + destruct (consume tb _) as [[x s2]|]; [|discriminate]. inversion H; subst c'. exact He.
+    + apply htm_continue in H. tauto.
+  - destruct (dfa_at tb a) as [d|]; [|discriminate].
+    destruct (predict tb d (c_stream c)) as [[q| |e] s1]; [| discriminate |].
+    + apply push_production_shape in H as (E & _). rewrite E. exact He.
+    + destruct (handle_prediction_error orc tb opts _ a d) as [q c1|r' n c1|site] eqn:Eh; try discriminate.
+      apply hpe_ok in Eh as (E1 & _). apply push_production_shape in H as (E & _). rewrite E. exact E1.
+  - unfold end_production in H. break_matches H; inversion H; subst c'; exact He.
+Qed.
+
+Lemma errs_stuck_loop fuel : forall c acts evs,
+  c_errs c <> [] -> ll_loop orc tb opts fuel c = Accepted acts evs -> False.
+Proof.
+  induction fuel as [|fuel IH]; intros c acts evs He H; [discriminate|].
+  cbn [ll_loop] in H. destruct (input_accepted (c_stack c)); [eapply finish_errs; eassumption|].
+  destruct (ll_step orc tb opts c) as [c'|c'|r] eqn:Es.
+  - eapply IH; [|exact H]. eapply errs_stuck_step; eassumption.
+  - eapply finish_errs; [|exact H]. eapply (step_break orc tb opts Hok Hrec); exact Es.
+  - subst r. apply step_return in Es. destruct Es.
+Qed.
+
+Lemma clean_step_potential c c' :
+  Inv tb opts toks c -> c_errs c = [] -> ll_step orc tb opts c = Continue c' -> c_errs c' = [] ->
+  2 * length (c_acts c') + nPE (c_stack c') + remaining (c_stream c)
+  = 2 * length (c_acts c) + nPE (c_stack c) + remaining (c_stream c') + 1.
+Proof.
+  intros (fs & Hne & Hw & Hst & _) He H He'.
+  destruct fs as [|f outer]; [congruence|]. clear Hne.
+  cbn [fwf hole_syms app] in Hw. destruct Hw as (Hp & Hr & _ & _).
+  cbn [stack_of] in Hst. unfold ll_step in H. rewrite Hst in H |- *.
+  destruct (f_pending f) as [|[t|a] pend]; cbn [map item_of app] in H |- *.
+  - unfold end_production in H. rewrite He in H.
+    break_matches H; inversion H; subst c'; cbn [c_acts c_stack c_stream length nPE filter]; lia.
+  - destruct (s_buf (ensure tb (c_stream c))) as [|tok b] eqn:Eb; [discriminate|].
+    destruct (N.eqb_spec (fst tok) t) as [Et|Et].
+    + unfold consume in H. rewrite (ensure_id tb (ensure tb (c_stream c))) in H by apply ensure_length.
+      rewrite Eb in H. inversion H; subst c'. cbn [c_acts c_stack c_stream nPE filter].
+      rewrite remaining_ensure. rewrite <- (remaining_ensure (c_stream c)).
+      unfold remaining at 2. rewrite Eb. cbn [set_buf s_buf s_rest map app filter].
+      assert (Hnzt : nz (fst tok) = true).
+      { rewrite Et. unfold nz. apply negb_true_iff. apply N.eqb_neq.
+        eapply (prod_terminal_nonzero tb Hok); [exact Hp|]. rewrite Hr.
+        apply in_or_app. right. left. reflexivity. }
+      rewrite Hnzt. cbn [length]. unfold remaining. cbn [s_buf s_rest]. fold nPE. lia.
+    + apply htm_continue in H. destruct H as (H & _). congruence.
+  - destruct (dfa_at tb a) as [d|]; [|discriminate].
+    destruct (predict tb d (c_stream c)) as [[q| |e] s1] eqn:Ep; [| discriminate |].
+    + apply push_production_shape in H as (_ & Ea & Es & En).
+      cbn [set_stack set_stream c_acts c_stream c_stack] in Ea, Es, En.
+      rewrite Ea, Es, En, (remaining_predict _ _ _ _ Ep). cbn [nPE filter]. fold nPE. lia.
+    + destruct (handle_prediction_error orc tb opts _ a d) as [q c1|r' n c1|site] eqn:Eh; try discriminate.
+      apply hpe_ok in Eh as (E1 & _). apply push_production_shape in H as (E & _).
+      cbn [set_stack c_errs] in E. congruence.
+Qed.
+
+Lemma filter_nz_repeat j : filter nz (repeat 0%N j) = [].
+Proof. induction j as [|j IH]; [reflexivity|]. cbn [repeat filter nz N.eqb negb]. exact IH. Qed.
+
+Lemma fin_potential c acts evs :
+  Fin tb opts toks c -> ll_finish c = Accepted acts evs ->
+  length acts = length (c_acts c) /\ nPE (c_stack c) = 0 /\ remaining (c_stream c) = 0.
+Proof.
+  intros (t & Hst & _ & _ & _ & Hcl) H. unfold ll_finish in H.
+  destruct (c_errs c) eqn:He; [|discriminate].
+  destruct (all_input_consumed (c_stream c)) eqn:Ha; [|discriminate].
+  inversion H; subst acts evs; clear H.
+  destruct (Hcl eq_refl) as [_ (rem & j & Ec & [E Hj] & L)].
+  split; [apply rev_length|]. split; [rewrite Hst; reflexivity|].
+  unfold all_input_consumed in Ha. pose proof (stream_k_pos tb) as Hk.
+  destruct (s_buf (c_stream c)) as [|x b] eqn:Eb; [cbn [length] in L; lia|].
+  apply N.eqb_eq in Ha. unfold remaining. rewrite Eb, E.
+  destruct rem as [|r rem]; [cbn [app]; rewrite filter_nz_repeat; reflexivity|].
+  cbn [map app] in E. inversion E as [[Er _]]. exfalso. apply Hnz. rewrite <- Ec.
+  apply in_or_app. right. left. congruence.
+Qed.
+
+Lemma loop_fuel fuel : forall c acts evs,
+  Inv tb opts toks c \/ Fin tb opts toks c -> c_errs c = [] ->
+  ll_loop orc tb opts fuel c = Accepted acts evs ->
+  2 * length (c_acts c) + nPE (c_stack c) <= 2 * length acts + remaining (c_stream c) /\
+  forall fuel', 2 * length acts + remaining (c_stream c) + 1 <= fuel' + 2 * length (c_acts c) + nPE (c_stack c) ->
+                ll_loop orc tb opts fuel' c = Accepted acts evs.
+Proof.
+  induction fuel as [|fuel IH]; intros c acts evs HI He H; [discriminate|].
+  cbn [ll_loop] in H. destruct HI as [HI|HF].
+  - pose proof (Inv_not_accepted _ _ _ _ HI) as Hna. rewrite Hna in H.
+    destruct (ll_step orc tb opts c) as [c'|c'|r] eqn:Es.
+    + assert (He' : c_errs c' = []).
+      { destruct (c_errs c') eqn:E; [reflexivity|]. exfalso.
+        eapply errs_stuck_loop; [|exact H]. rewrite E. discriminate. }
+      pose proof (clean_step_potential c c' HI He Es He') as Hpot.
+      destruct (IH c' acts evs (step_inv orc tb opts toks Hok c c' HI Es) He' H) as [Hle Hall].
+      split; [lia|]. intros fuel' Hf. destruct fuel' as [|f']; [lia|].
+      cbn [ll_loop]. rewrite Hna, Es. apply Hall. lia.
+    + exfalso. eapply finish_errs; [|exact H]. eapply (step_break orc tb opts Hok Hrec); exact Es.
+    + subst r. apply step_return in Es. destruct Es.
+  - pose proof HF as (t & Hst & _). rewrite Hst in H. cbn [input_accepted] in H.
+    destruct (fin_potential c acts evs HF H) as (Ha & Hn & Hr). rewrite Ha, Hn, Hr.
+    split; [lia|]. intros fuel' Hf. destruct fuel' as [|f']; [lia|].
+    cbn [ll_loop]. rewrite Hst. cbn [input_accepted]. exact H.
+Qed.
+
+Lemma locate_length l : forall loc, length (locate l loc) = length l.
+Proof. induction l as [|t l IH]; intros loc; cbn [locate length]; [reflexivity|]. rewrite IH. reflexivity. Qed.
+
+Lemma run_located_fuel fuel fuel' acts evs :
+  ll_run_located orc tb opts fuel (locate toks LOC_FIRST) LOC_END = Accepted acts evs ->
+  length toks + 2 * length acts <= fuel' ->
+  ll_run_located orc tb opts fuel' (locate toks LOC_FIRST) LOC_END = Accepted acts evs.
+Proof.
+  unfold ll_run_located. intros H Hf.
+  set (s0 := init_stream tb (locate toks LOC_FIRST) LOC_END) in *.
+  assert (Hrem0 : remaining s0 = length toks).
+  { unfold s0, init_stream. rewrite remaining_ensure. unfold remaining. cbn [s_buf s_rest map app].
+    rewrite locate_types. clear -Hnz. induction toks as [|t l IH]; [reflexivity|].
+    cbn [filter]. assert (Ht : nz t = true).
+    { unfold nz. apply negb_true_iff. apply N.eqb_neq. intros ->. apply Hnz. left. reflexivity. }
+    rewrite Ht. cbn [length]. f_equal. apply IH. intros Hin. apply Hnz. right. exact Hin. }
+  destruct (ll_init orc tb opts s0) as [c|c|r] eqn:Ei.
+  - assert (HI : Inv tb opts toks c).
+    { eapply init_inv; [exact Hok| |exact Ei]. apply init_stream_ok. }
+    assert (Hc : c_errs c = [] -> c_acts c = [] /\ nPE (c_stack c) = 1 /\ remaining (c_stream c) = length toks).
+    { intros He. unfold ll_init in Ei.
+      destruct (dfa_at tb (tb_start tb)) as [d|]; [|discriminate].
+      destruct (predict tb d s0) as [[q| |e] s1] eqn:Ep; [| discriminate |].
+      - apply push_production_shape in Ei as (_ & Ea & Es & En).
+        cbn [set_stream c_acts c_stream c_stack] in Ea, Es, En.
+        rewrite Ea, Es, En, (remaining_predict _ _ _ _ Ep). auto.
+      - destruct (handle_prediction_error orc tb opts _ _ d) as [q c1|r' n c1|site] eqn:Eh; try discriminate.
+        apply hpe_ok in Eh as (E1 & _). apply push_production_shape in Ei as (E & _). congruence. }
+    assert (He : c_errs c = []).
+    { destruct (c_errs c) eqn:E; [reflexivity|]. exfalso.
+      eapply errs_stuck_loop; [|exact H]. rewrite E. discriminate. }
+    destruct (Hc He) as (Ea & En & Er).
+    destruct (loop_fuel fuel c acts evs (or_introl HI) He H) as [_ Hall].
+    apply Hall. rewrite Ea, En, Er. cbn [length]. lia.
+  - exfalso. eapply init_not_break; exact Ei.
+  - exact H.
+Qed.
+
+End Fuel.
+
+(** For an accepted run, [length toks + 2 * length acts] fuel is enough. *)
+Theorem ll_fuel_any_oracle : forall orc fuel fuel' tb opts toks acts evs,
+  tables_ok tb = true -> ll_run_with orc fuel tb opts toks = Accepted acts evs ->
+  length toks + 2 * length acts <= fuel' ->
+  ll_run_with orc fuel' tb opts toks = Accepted acts evs.
+Proof.
+  intros orc fuel fuel' tb opts toks acts evs Hok H Hf. apply tables_ok_split in Hok as [H1 H2].
+  unfold ll_run_with in *. destruct (forallb significant toks) eqn:Hs; [|discriminate].
+  eapply run_located_fuel; try eassumption; [right; exact H2|apply significant_nonzero; exact Hs].
+Qed.
+
+Theorem ll_fuel : forall fuel fuel' tb opts toks acts evs,
+  tables_ok tb = true -> ll_run fuel tb opts toks = Accepted acts evs ->
+  length toks + 2 * length acts <= fuel' ->
+  ll_run fuel' tb opts toks = Accepted acts evs.
+Proof. intros fuel fuel' tb opts toks acts evs. apply ll_fuel_any_oracle. Qed.
+
 (** ** Completeness *)
 
 (** [lsf g w alpha]: the start symbol derives [w alpha] by a leftmost derivation in which
@@ -1819,9 +2049,8 @@ Proof.
 Qed.
 
 (** Fuel: an accepted run makes one loop iteration per token, two per production application
-    except the first push, plus the final test: [length toks + 2 * length acts] suffices (and
-    one less does not).  Not proved in general; [ll_run_fuel_mono] lets a caller simply retry
-    with more fuel on [OutOfFuel]. *)
+    except the first push, plus the final test: [length toks + 2 * length acts] suffices
+    ([ll_fuel]) and one less does not. *)
 Example ex_fuel_exact :
   ll_run (5 + 2 * 3) ex_tables ex_opts [5; 5; 7; 6; 6]%N <> OutOfFuel /\
   ll_run (5 + 2 * 3 - 1) ex_tables ex_opts [5; 5; 7; 6; 6]%N = OutOfFuel.
@@ -1841,4 +2070,5 @@ Print Assumptions ll_trim_events.
 Print Assumptions ll_no_panic_any_oracle.
 Print Assumptions ll_no_panic_partial.
 Print Assumptions ll_run_fuel_mono.
+Print Assumptions ll_fuel.
 Print Assumptions ll_complete.
